@@ -228,15 +228,15 @@ def routes_disagree(fields):
     oks = [k for k, s in live if s == "ok"]
     if len(oks) < 2:
         return None
-    n = max(len(fields[k]) for k in oks)
-    for i in range(n):
-        seen = {}
-        for k in oks:
-            c = fields[k][i] if i < len(fields[k]) else "."
-            if c != ".":
-                seen[k] = c
-        if len(set(seen.values())) > 1:
-            return "routes disagree at string #%d: %s" % (i, " ".join("r%d=%s" % (k + 1, c) for k, c in seen.items()))
+    base = merged_verdicts([fields[k] for k in oks])
+    for k in oks:
+        f = fields[k]
+        if f == base:
+            continue
+        for i, (c, b) in enumerate(zip(f, base)):
+            if c != "." and c != b:
+                seen = {j: fields[j][i] for j in oks if i < len(fields[j]) and fields[j][i] != "."}
+                return "routes disagree at string #%d: %s" % (i, " ".join("r%d=%s" % (j + 1, x) for j, x in seen.items()))
     return None
 
 
@@ -245,6 +245,9 @@ def merged_verdicts(fields):
     oks = [f for f in fields if field_state(f) == "ok"]
     if not oks:
         return None
+    for f in oks:
+        if "." not in f:
+            return f
     n = max(len(f) for f in oks)
     out = []
     for i in range(n):
@@ -596,7 +599,7 @@ def grid_cases(cx, st):
     every4 = cx.n(16, 4)
     for k, p in enumerate(pats):
         s4 = 401 if k % every4 == 0 else 0
-        cases.append(Case(p, "grid", ALPHABET, maxlen, s3=1, s4=s4, salt=rng.randrange(0, 401), tag="R1<=%d" % full))
+        cases.append(Case(p, "grid", ALPHABET, maxlen, s3=cx.n(3, 1), s4=s4, salt=rng.randrange(0, 401), tag="R1<=%d" % full))
     # strings up to length 4 for the smaller patterns (thorough) / a sample (quick)
     small = []
     for n in range(0, cx.n(2, 3) + 1):
@@ -605,7 +608,7 @@ def grid_cases(cx, st):
         cases.append(Case(p, "grid", ALPHABET, 4, s3=cx.n(7, 1), s4=0, salt=rng.randrange(0, 7), tag="R1<=%d,len4" % cx.n(2, 3)))
     # beyond the exhaustive bound: random larger members of R1
     seen = set(pats)
-    for n, cnt in ((full + 1, cx.n(1500, 40000)), (full + 2, cx.n(700, 20000)), (full + 4, cx.n(300, 8000))):
+    for n, cnt in ((full + 1, cx.n(900, 40000)), (full + 2, cx.n(400, 20000)), (full + 4, cx.n(200, 8000))):
         for _ in range(cnt):
             p = random_re(rng, n)
             if p in seen:
@@ -614,16 +617,16 @@ def grid_cases(cx, st):
             cases.append(Case(p, "grid", ALPHABET, 3, s3=cx.n(5, 1), s4=0, salt=rng.randrange(0, 5), tag="R1=%d,sampled" % n))
     # malformed stream: token soup (mostly not XSD); the routes must still agree, and where the spec accepts, so must the verdicts
     TOK = ATOMS + QUANTS + ["(", ")", "|", "[", "]", "{", "}", "\\", "{2}", "{1,}", "{,2}", "{2,1}", "a-", "[a", "b]", "[]", "[^]", "()", "\\p{L}", "\\e", "?"]
-    for _ in range(cx.n(1500, 30000)):
+    for _ in range(cx.n(1000, 30000)):
         p = "".join(rng.choice(TOK) for _ in range(rng.randrange(1, 6)))
         if p in seen:
             continue
         seen.add(p)
         cases.append(Case(p, "grid", ALPHABET, 2, s3=1, s4=0, tag="token-soup"))
     cx.rule("grid: ALL %d patterns of grammar R1 with <= %d tokens over atoms %s, quantifiers %s, '|', '( )' x ALL %d strings of length <= 3 over "
-            "{a b ^ $ LF CR 1} through ly_pattern_match, lyd_value_validate and XPath re-match (yangre main() on one string of every %dth pattern); "
-            "patterns with <= %d tokens also x all %d strings of length <= 4; %d sampled larger patterns; non-trivial = pattern whose verdict vector "
-            "is not constant" % (len(pats), full, " ".join(ATOMS), " ".join(QUANTS), grid_size(7, 3), every4, cx.n(2, 3), grid_size(7, 4), len(cases) - len(pats) - len(small)))
+            "{a b ^ $ LF CR 1} through ly_pattern_match and lyd_value_validate, XPath re-match on every %s string, yangre main() on one string of every %dth pattern; "
+            "patterns with <= %d tokens also x all %d strings of length <= 4; %d sampled larger patterns and token-soup (malformed) patterns; non-trivial = pattern whose verdict vector "
+            "is not constant" % (len(pats), full, " ".join(ATOMS), " ".join(QUANTS), grid_size(7, 3), cx.n("3rd", ""), every4, cx.n(2, 3), grid_size(7, 4), len(cases) - len(pats) - len(small)))
     return cases, len(pats)
 
 
@@ -666,7 +669,7 @@ def unicode_cases(cx, st):
         strs = [s.encode() for s in dict.fromkeys(strs)][:56]
         cases.append(Case(p, "list", strs=strs, tag="unicode"))
     cx.rule("unicode: %d hand-written and generated patterns with category / block / multi-character escapes, each x <= 56 strings over boundary "
-            "characters and random characters whose category is stable since Unicode 3.2, all four routes on every string" % len(pats))
+            "characters and random characters whose category is stable since Unicode 3.2, ly_pattern_match, lyd_value_validate and XPath re-match on every string, yangre main() on every 8th" % len(pats))
     return cases
 
 
@@ -750,9 +753,14 @@ def corpus_cases(cx):
 # ------------------------------------------------------------------------------------------ entry points
 
 def run(cx):
+    import time
+    t0 = time.time()
+    marks = []
+    def mark(name):
+        marks.append("%s %.1fs" % (name, time.time() - t0))
     st = probe(cx)
     # witnesses of the listed findings first
-    wit = [Case("\\p{IsGreek}", "list", strs=[b"a", "α".encode()], tag="witness"),
+    wit = [Case("\\p{IsGreek}", "list", strs=[b"a", "\u03b1".encode()], tag="witness"),
            Case("\\^", "list", strs=[b"^", b"\\", b"\\^"], tag="witness"),
            Case("\\$", "list", strs=[b"$", b"\\"], tag="witness"),
            Case("\\^*", "list", strs=[b"", b"^^"], tag="witness"),
@@ -761,19 +769,25 @@ def run(cx):
            Case("\\i\\c*", "list", strs=[b"ab", b"1"], tag="witness"),
            Case("\\w", "list", strs=[b"$", b"a", b"_"], tag="witness"),
            Case("\\s", "list", strs=["\u00a0".encode(), b" "], tag="witness"),
-           Case("\\P{IsGreek}", "list", strs=[b"a", "α".encode()], tag="witness")]
+           Case("\\P{IsGreek}", "list", strs=[b"a", "\u03b1".encode()], tag="witness")]
     tot = collections.Counter()
     tot.update(evaluate(cx, st, wit + corpus_cases(cx)))
+    mark("witnesses+corpus")
     run_rewrite(cx, st)
+    mark("rewrite")
     cases, nfull = grid_cases(cx, st)
     B = 6000
     for k in range(0, len(cases), B):
         tot.update(evaluate(cx, st, cases[k:k + B], inv_every=cx.n(9, 5)))
+    mark("grid")
     tot.update(evaluate(cx, st, unicode_cases(cx, st), inv_every=3))
+    mark("unicode")
     run_yangre_binary(cx, st)
     run_xpath_reject_leak(cx, st)
+    mark("yangre+leak")
     cx.exhaustive = True
     cx.notes.append("law outcome per pattern: " + ", ".join("%s=%d" % kv for kv in sorted(tot.items())))
+    cx.notes.append("cumulative time: " + ", ".join(marks))
     if tot.get("oracle-crosscheck-failed"):
         cx.notes.append("ORACLE SUSPECT: PCRE2 on toPcre(p) disagreed with the spec matcher for %d pattern(s)" % tot["oracle-crosscheck-failed"])
 
